@@ -48,6 +48,14 @@ Theorem C08_accessor_refuses : forall q st o tid tk pa pt fl its,
 Proof. exact accessor_refuses. Qed.
 Print Assumptions C08_accessor_refuses.
 
+(* ... while rebind keeps working: its outcome depends neither on the accessor_writable flag of the target nor on the
+   allow_writable_accessors scope (same sealed / notification / partial scopes, same sealed flag => same step) *)
+Theorem C08_rebind_unaffected_by_accessor_flag : forall q sc sc' st ps tid tk tpth tfl tfl' its pvs,
+  same_but_accessors sc sc' -> f_sealed tfl' = f_sealed tfl ->
+  exec q sc' st ps tid tk tpth tfl' its (Rebind pvs) = exec q sc st ps tid tk tpth tfl its (Rebind pvs).
+Proof. exact rebind_ignores_accessors. Qed.
+Print Assumptions C08_rebind_unaffected_by_accessor_flag.
+
 (* seal(b) sets the flag of every symbolic node below ... *)
 Theorem C08_seal_is_deep : forall b n, every (sealed_is b) (seal_rec b n).
 Proof. exact seal_rec_deep. Qed.
